@@ -10,4 +10,4 @@ Extraction "edif_model.ml"
   mb_add mb_merge assemble wire_of cab_is_array member_outer member_inner member_read
   emit_cable read_cable read_nets emit_nets norm_entry
   elab_text elab_tokens elab_file read_first
-  emit_file emit_text prepass norm_file rt_status rt_check file_eqb.
+  emit_file emit_text prepass norm_file rt_status rt_check file_eqb ordered writable params_w.
